@@ -20,10 +20,10 @@ func init() {
 func runC31(c *Ctx) {
 	fns := c.funcsOfPkg("ssh")
 	exempt := map[string]string{
-		"newHandshakeTransport":                       "constructor, object not yet shared",
-		"newClientTransport":                          "constructor, object not yet shared",
-		"newServerTransport":                          "constructor, object not yet shared",
-		"(*handshakeTransport).resetWriteThresholds":  "caller holds t.mu (checked at every call site)",
+		"newHandshakeTransport":                      "constructor, object not yet shared",
+		"newClientTransport":                         "constructor, object not yet shared",
+		"newServerTransport":                         "constructor, object not yet shared",
+		"(*handshakeTransport).resetWriteThresholds": "caller holds t.mu (checked at every call site)",
 	}
 	for _, fld := range []string{"writeError", "sentInitPacket", "sentInitMsg", "pendingPackets", "writePacketsLeft", "writeBytesLeft", "userAuthComplete"} {
 		n := c.checkGuarded("C31.lock", fns, guardSpec{"handshakeTransport", fld, ".mu", true}, exempt)
